@@ -4,7 +4,7 @@ from ._bit_vector import BitVector, BitOrder
 from ._bit import Bit
 
 from ._intrinsic import _intrinsic
-from ._integer import Integer
+from ._integer import Integer, _truncdiv
 
 from ._boolean import Null, Full
 
@@ -353,7 +353,7 @@ class Unsigned(BitVector):
         if rhs == 0:
             return Unsigned[result_width]()
 
-        return Unsigned[result_width](lhs - rhs * int(lhs / rhs))
+        return Unsigned[result_width](lhs - rhs * _truncdiv(lhs, rhs))
 
     @_intrinsic
     def _cohdl_rrem_(self, lhs: int | Integer) -> Unsigned:
@@ -367,7 +367,7 @@ class Unsigned(BitVector):
         if rhs == 0:
             return Unsigned[result_width]()
 
-        return Unsigned[result_width](lhs - rhs * int(lhs / rhs))
+        return Unsigned[result_width](lhs - rhs * _truncdiv(lhs, rhs))
 
     @_intrinsic
     def __lshift__(self, rhs: Unsigned | int | Integer) -> Unsigned:
